@@ -356,3 +356,20 @@ def param_values(ctx, f, pname, depth=0, seen=None):
             return const_of(f.defaults[pname], None)
         return None
     return out
+
+
+class FuncView:
+    """A function seen through a normalised body (same name, parameters, module and position as the original)."""
+
+    def __init__(self, f, body):
+        import copy
+
+        self._f = f
+        node = copy.copy(f.node)
+        node.body = body
+        for st_ in body:
+            st_._parent = node
+        self.node = node
+
+    def __getattr__(self, k):
+        return getattr(self._f, k)
